@@ -9,7 +9,7 @@
 \*   length / ->length       number of bytes
 \*   indexOf(sub)            byte offset of the first occurrence of sub, -1 if absent, 0 for ""
 \*   substring(start, end?)  byte offsets, both clamped to 0..length; the result is a byte string
-\*                           (start > end after clamping is not generated: not documented)
+\*                           when start > end after clamping the two are swapped (JavaScript String.substring)
 \*   replace(search, repl)   every occurrence, left to right, non-overlapping (docs: "Hell0 W0rld")
 \*   split(sep?)             default separator is a space; adjacent separators give empty strings
 \*                           (the empty receiver is not split, and the default separator is only used
@@ -44,7 +44,7 @@ At(s, sub, i) == i + Len(sub) <= Len(s) /\ Sub(s, i, i + Len(sub)) = sub        
 IndexOf(s, sub) == LET hits == {i \in 0..Len(s) : At(s, sub, i)} IN
                    IF hits = {} THEN -1 ELSE Len(B(Sub(s, 0, CHOOSE i \in hits : \A j \in hits : i <= j)))
 Substring(s, st, en) == LET bs == B(s) n == Len(bs) a == Clamp(st, n) b == IF en = Omit THEN n ELSE Clamp(en, n)
-                        IN Sub(bs, a, b)
+                        IN Sub(bs, Min2(a, b), Max2(a, b))
 RECURSIVE ReplAll(_, _, _)
 ReplAll(s, search, repl) ==
   IF s = <<>> THEN <<>>
@@ -69,9 +69,7 @@ Step ==
   \/ Call("length", <<>>, Len(B(recv)))
   \/ Call("lengthProp", <<>>, Len(B(recv)))
   \/ \E sub \in Subs : Call("indexOf", <<sub>>, IndexOf(recv, sub))
-  \/ \E st \in Idx, en \in Idx \cup {Omit} :
-        /\ (en # Omit => Clamp(st, Len(B(recv))) <= Clamp(en, Len(B(recv))))
-        /\ Call("substring", <<st, en>>, Substring(recv, st, en))
+  \/ \E st \in Idx, en \in Idx \cup {Omit} : Call("substring", <<st, en>>, Substring(recv, st, en))
   \/ \E se \in Subs \ {<<>>}, re \in {<<>>, <<"x">>, <<"a", "a">>} : Call("replace", <<se, re>>, ReplAll(recv, se, re))
   \/ \E sep \in {<<" ">>, <<"a">>, <<"a", "b">>} : recv # <<>> /\ Call("split", <<sep>>, Split(recv, sep, <<>>))
   \/ /\ recv # <<>> /\ \A i \in 1..Len(Split(recv, <<" ">>, <<>>)) : Split(recv, <<" ">>, <<>>)[i] # <<>>
@@ -91,6 +89,7 @@ EmitEdge == Emit => PrintT(<<"EDGE", ToJson([from |-> recv, act |-> act'])>>)
 ReceiverUntouched == [][recv' = recv]_vars
 PrefixLaw == \A sub \in Subs : At(recv, sub, 0) => IndexOf(recv, sub) = 0
 SubstringWhole == Substring(recv, 0, Omit) = B(recv)
+SubstringSymmetric == \A a, b \in Idx : Substring(recv, a, b) = Substring(recv, b, a)
 SplitJoinLaw == \A sep \in {<<" ">>, <<"a">>} :
                   LET parts == Split(recv, sep, <<>>) IN
                   FoldLeft(LAMBDA acc, p : IF acc = <<"#">> THEN p ELSE acc \o sep \o p, <<"#">>, parts) = recv
